@@ -38,10 +38,10 @@ let show_ev = function
   | EvRecv h -> "V" ^ string_of_int (int_of_nat h)
   | EvShutdown h -> "X" ^ string_of_int (int_of_nat h)
 
-let mask fixed g =
+let mask stepf g =
   let k = List.length g.threads in
   let m = ref 0 in
-  for t = 0 to k - 1 do if enabled fixed g (n t) then m := !m lor (1 lsl t) done;
+  for t = 0 to k - 1 do (match stepf g (n t) with Some _ -> m := !m lor (1 lsl t) | None -> ()) done;
   !m
 
 let show kind fixed g status masks =
@@ -56,7 +56,8 @@ let show kind fixed g status masks =
 let () = iter_lines (fun line ->
   match split_ws line with
   | kind :: fx :: progs :: sched :: _ ->
-    let fixed = (fx = "1") in
+    (* model variant: 1 = repaired code, 0 = code as found, 2 = seeded "early unlock" mutation *)
+    let fixed = (match fx with "0" -> step false | "2" -> step_early | _ -> step true) in
     let g0 = init (parse_progs progs) in
     let rec go g sched k masks =
       let m = mask fixed g in
@@ -66,7 +67,7 @@ let () = iter_lines (fun line ->
         let status = if not unf then "done" else if m = 0 then "stuck" else "cut" in
         show kind fixed g status (m :: masks)
       | t :: r ->
-        (match step fixed g (n t) with
+        (match fixed g (n t) with
          | None -> show kind fixed g (Printf.sprintf "bad@%d" k) (m :: masks)
          | Some g' -> go g' r (k + 1) (m :: masks))
     in
